@@ -85,7 +85,9 @@ func (root *Root) ResolveExecutable(
 	if 0 < len(op.Variables) {
 		opVars = map[string]interface{}{}
 		for _, vd := range op.Variables {
-			opVars[vd.Name] = vd.Default
+			// A copy, coercion fills input object defaults into the value
+			// and the default belongs to the parsed executable.
+			opVars[vd.Name] = copyValue(vd.Default)
 			if vars != nil {
 				if v := vars[vd.Name]; v != nil {
 					if ic, _ := vd.Type.(InCoercer); ic != nil { // validated in SDL validation
